@@ -409,7 +409,7 @@ fn o9_4_client_disconnect_budget() { budget_step(true); }
 
 //@h props=C10,C08 tier=quick timeout=900 role=client-real-step
 //@fn Client::{step, flush_if_active, handle_frames, handle_frame, handle_sync, handle_events, step_if_active}, Frame::read
-//@bound Active client (deadline any, config any valid); ONE sync frame (14 bytes, no ids) waiting in the socket; clock reading any < 2^40 -- in particular at or past the deadline; one call of the real step()
+//@bound Active client (deadline any, config any valid with active_timeout_ms >= 1); ONE sync frame (14 bytes, no ids) waiting in the socket; clock reading any < 2^40 -- in particular at or past the deadline; one call of the real step()
 //@assume clock behind now_ms() = a value set by the obligation; socket model with one queued datagram; opaque connection model; crc::compute stubbed
 #[kani::proof]
 #[kani::unwind(5)]
@@ -417,6 +417,7 @@ fn o9_4_client_disconnect_budget() { budget_step(true); }
 fn o10_4_client_step_reads_waiting_frames_before_timers() {
     unsafe { crate::frame::serial::verif_codec::CRC_STUB_VALUE = 0; }
     let cfg = any_cfg();
+    kani::assume(cfg.active_timeout_ms >= 1);   // with a timeout of 0 ms "no frame during the preceding 0 ms" is vacuous
     let deadline = any_time();
     let mut c = mk_client(active(kani::any(), deadline, None), cfg.clone());
     // a keepalive sync frame from the peer: type 11, mode 0, two unused id fields, CRC (stub value 0)
